@@ -169,7 +169,7 @@ def campaign(c, rng, t):
                       c.cls(raw.split(b" ", 1)[0][:8].decode("latin-1"), label["route"], entry)
               d = fsmon.diff(before, fsmon.manifest(t.base))
               for kind, p, a, b in d:
-                  c.violation("C13:manifest:%s:%s" % (kind.split(" ")[0], "inside-root" if p.startswith("outer2/outer1/root") else "outside-root"), "after the in-process campaign on %s: %s %s (before %r, after %r)" % (entry, kind, p, a, b), {"entry": entry, "path": p})
+                  c.violation("C13:manifest:%s:%s" % (kind.split(" ")[0], "inside-root" if p.startswith(os.path.relpath(t.root, t.base)) else "outside-root"), "after the in-process campaign on %s: %s %s (before %r, after %r)" % (entry, kind, p, a, b), {"entry": entry, "path": p})
               if d:
                   before = fsmon.manifest(t.base)
           # ---- Engine B under strace
@@ -227,7 +227,7 @@ def campaign(c, rng, t):
           broken_stdout(c, t, rng)
           d = fsmon.diff(before, fsmon.manifest(t.base))
           for kind, p, a, b in d:
-              c.violation("C13:manifest:%s:%s" % (kind.split(" ")[0], "inside-root" if p.startswith("outer2/outer1/root") else "outside-root"), "after the real-binary campaign: %s %s (before %r, after %r)" % (kind, p, a, b), {"path": p})
+              c.violation("C13:manifest:%s:%s" % (kind.split(" ")[0], "inside-root" if p.startswith(os.path.relpath(t.root, t.base)) else "outside-root"), "after the real-binary campaign: %s %s (before %r, after %r)" % (kind, p, a, b), {"path": p})
           c.extra["manifest_entries_compared"] = len(before)
           c.sample({"manifest_entries": len(before), "upload_requests": [(m, s) for m, s, _ in ups[:6]], "root": t.root})
           for p in ("/tmp/rws-evil", "/tmp/rws-evil2"):
